@@ -34,11 +34,15 @@ MonNext ==
     /\ wl' = [k \in DOMAIN Ev.wl |-> Val(Ev.wl[k].items, Ev.wl[k].len)]
     /\ lbl' = [k \in DOMAIN Ev.tl |-> Val(Ev.tl[k], 0)]
     /\ res' = Ev.res
+    /\ lbl2' = [k \in DOMAIN Ev.tla |-> Val(Ev.tla[k], 0)]
+    /\ res2' = Ev.res2
     /\ Viol("AllLabelsValid", AllLabelsValid' /\ MonValidateOK)
     /\ Viol("RoundTrip", RoundTrip')
     /\ Viol("NeighbourUrlsPositional", NeighbourUrlsPositional')
     /\ Viol("PrefetchSizeRoundTrips", PrefetchSizeRoundTrips' /\ MonPrefetchConsumed)
     /\ Viol("UrlsOwnOrNone", UrlsOwnOrNone')
+    /\ Viol("ReaderLeavesLabels", ReaderLeavesLabels')
+    /\ Viol("RoundTripSecondRead", RoundTripSecondRead')
     /\ Viol("MalformedMandatoryRejected", MalformedMandatoryRejected')
 
 MonSpec == MonInit /\ [][MonNext]_mvars
